@@ -313,12 +313,17 @@ check("C01", "exploration",
       "<= 2 (3) reports to 2 and 3 shards; one 90-report input holding every group shape (single, pair II/IC/CI/CC, triple, "
       "quadruple) with wrap-around of value (7+7, 4+4) and breakdown key (255+1, 128+128) on 1, 2, 3 shards with two "
       "distributions, HV in {BA8, BA16}, with and without dummy-record padding; saturation inputs (36/37/40 pairs of value 7 in one "
-      "bucket). distinct_nontrivial = executed inputs holding at least one attributed pair.",
+      "bucket). The same driver is built and run a second time with the compact step-identifier implementation (config E). "
+      "distinct_nontrivial = executed inputs holding at least one attributed pair.",
       [{"name": "attribution", "config": "A", "test": "verif::c01::run", "workers": {"quick": 4, "thorough": 8},
         "timeout": {"quick": 1200, "thorough": 10800},
-        "require": {"any": {"matches_reference": 60, "runs_S1": 40, "runs_S2": 10}}}],
+        "require": {"any": {"matches_reference": 60, "runs_S1": 40, "runs_S2": 10}}},
+       {"name": "compact-steps", "config": "E", "test": "verif::c01::run", "workers": {"quick": 4, "thorough": 8},
+        "timeout": {"quick": 1800, "thorough": 10800},
+        "require": {"any": {"matches_reference": 60, "runs_S1": 40}}}],
       assumptions=["task schedules of the composed query are not enumerated here (discharged per component in C13-C16, C19)",
-                   "the compact step-identifier implementation is not built by this check (descriptive gate only)",
+                   "the compact step-identifier implementation (config E: --no-default-features --features compact-gate ...) runs the same "
+                   "inputs on 1-2 shards in the quick tier and all of them in the thorough tier",
                    "HV = BA32 and DP noise are not instantiated"],
       exhaustive=True, engine="E5 domain",
       technique="bounded exhaustive enumeration of small inputs x shard assignments executed on the real three-helper protocol, "
